@@ -300,11 +300,10 @@ func (c *ClusterInfo) Sync(cluster *proxyv1alpha1.UpstreamCluster) error {
 
 	klog.V(5).Infof("[cluster info] syncing cluster info, name=%q", c.Cluster)
 
-	if cluster.Annotations != nil {
-		if err := c.syncFeatureGate(cluster.Annotations); err != nil {
-			// we should never get here because there is validating admission
-			return err
-		}
+	// also without annotations: gates that were switched on by an earlier version must be switched off again
+	if err := c.syncFeatureGate(cluster.Annotations); err != nil {
+		// we should never get here because there is validating admission
+		return err
 	}
 
 	// sync flow control type
@@ -567,7 +566,13 @@ func (c *ClusterInfo) syncFeatureGate(annotations map[string]string) error {
 		}
 		return nil
 	}
-	return c.featuregate.Set(featuregate)
+	// start from the defaults: Set() on the previous gates would keep every gate that is no longer listed
+	fg := features.DefaultMutableFeatureGate.DeepCopy()
+	if err := fg.Set(featuregate); err != nil {
+		return err
+	}
+	c.featuregate = fg
+	return nil
 }
 
 // upstream policy    enabled
